@@ -907,19 +907,29 @@ def build_unit(unit, repo, variant=None):
         ilog = []
         text = raw
         text = rule_R0_attrs(text, set(spec.get('features', features)), ilog)
+        kind = it.kind
+        if spec.get('fragment'):
+            # a statement fragment of a function that cannot be lifted as a whole (generic over serde
+            # traits): the matched source text is placed verbatim inside the given wrapper function
+            ms = list(re.finditer(spec['fragment'], text))
+            if len(ms) != 1:
+                raise Undecided('%s: fragment pattern matches %d times' % (item_id, len(ms)))
+            frag = ms[0].group(0)
+            text = spec['wrapper'].replace('{FRAG}', frag)
+            ilog.append(('R26', '%s: statement fragment lifted into wrapper fn (%d chars)' % (item_id, len(frag))))
+            kind = 'fn'
         if spec.get('pre_rewrites'):
             text = apply_regex_rewrites(text, spec['pre_rewrites'], ilog, item_id, 'R8')
         for lr in spec.get('loop_rewrites', []) or []:
             text = rule_for_to_while(text, lr[0], lr[1], ilog, item_id)
         text = rule_R5_closure_underscore(text, ilog)
         text = rule_R17_visibility(text, ilog, item_id)
-        if it.kind in ('fn', 'impl'):
+        if kind in ('fn', 'impl'):
             text = rule_R22_let_chains(text, ilog, item_id)
-        if it.kind == 'fn':
+        if kind == 'fn':
             text = rule_R16_mut_self(text, ilog, item_id)
         text = apply_regex_rewrites(text, getattr(unit, 'SUBST', []), ilog, item_id, 'R6')
         text = apply_regex_rewrites(text, spec.get('rewrites', []), ilog, item_id, 'R8')
-        kind = it.kind
         meta = dict(id=item_id, path=path, src=spec['src'], lines=[a, b], kind=kind,
                     sha256=hashlib.sha256(raw.encode()).hexdigest(), props=spec.get('props', []),
                     trusted=bool(spec.get('trusted')), rewrites=['%s %s' % x for x in ilog],
@@ -927,6 +937,8 @@ def build_unit(unit, repo, variant=None):
         if kind == 'fn':
             woven = weave_fn(w, item_id, text, spec, ilog)
             hdr = spec.get('impl_header')
+            if spec.get('fragment'):
+                hdr = ''
             if hdr is None:
                 hdr = impl_header_for(src, toks, path)
                 if hdr is not None:
